@@ -173,12 +173,16 @@ func c09Case(t *T) {
 	hookKind := pick(r, []string{"absent", "nothing", "status", "status+body", "echo", "status", "status+body", "abort-with-status"})
 	usePanicsHandler := hookKind == "absent" && chance(r, 1, 4)
 	onErrorPanics := chance(r, 1, 8)
+	// pkg/handlers.Timeout as the outermost middleware (its own deadline never passes; a request whose
+	// context is already past its deadline makes it record 504 while the panic unwinds)
+	withTimeout := hookKind != "absent" && chance(r, 1, 4)
 	var plan, histDesc []string
 	t.Describe(func() any {
 		d := p.Describe().(map[string]any)
 		d["hook"] = hookKind
 		d["PanicsHandler_first"] = usePanicsHandler
 		d["OnError_panics"] = onErrorPanics
+		d["Timeout_middleware_first"] = withTimeout
 		d["plan"] = plan
 		d["history"] = histDesc
 		return d
@@ -189,6 +193,9 @@ func c09Case(t *T) {
 		router = p.Build(func(rt *rux.Router) {
 			if usePanicsHandler {
 				rt.Use(handlers.PanicsHandler())
+			}
+			if withTimeout {
+				rt.Use(handlers.Timeout(time.Hour))
 			}
 		})
 		if onErrorPanics {
@@ -446,6 +453,12 @@ func c09Case(t *T) {
 				m.step(respOp{Kind: "write", Data: "pre"})
 				t.Count("panic.after_commit", 1)
 			}
+		}
+		if withTimeout && hdr["X-Req-Context"] == "deadline-passed" {
+			// the deadline middleware notices the expired context while the panic (or the chain) unwinds
+			// and records 504 - a status setting like any other, the hook answers after it
+			m.step(respOp{Kind: "status", Code: 504})
+			t.Count("panic.behind_timeout_with_expired_context", 1)
 		}
 		switch hookKind {
 		case "status":
